@@ -1225,7 +1225,7 @@ func rawSet(cs []*smx509.Certificate) []string {
 
 // checkCSRResponse: nSign in {1,2}, encMode 0: no encryption key, 1: key + 1 certificate, 2: key + 2 certificates;
 // longFirst selects which of the two sign certificates is the longer DER (SET OF ordering).
-func checkCSRResponse(t *engine.T, env *issuerEnv, nSign, encMode int, longLeaf bool) {
+func checkCSRResponse(t *engine.T, env *issuerEnv, nSign, encMode int, longLeaf, doAlter bool) {
 	ctx := fmt.Sprintf("csr-response issuer=%s signCerts=%d encMode=%d longLeaf=%v", kindName[env.kind], nSign, encMode, longLeaf)
 	signKey, encKey, wrongKey := key(kSM2, 2), key(kSM2, 3), key(kSM2, 4)
 	dns := ""
@@ -1317,6 +1317,13 @@ func checkCSRResponse(t *engine.T, env *issuerEnv, nSign, encMode int, longLeaf 
 		t.Fail("rt/csr-response/substituted-key-accepted", "%s: ParseCSRResponse succeeds with a private key that matches no sign certificate", ctx)
 	}
 	t.Eval(1)
+	t.Nontrivial("csr-response/" + ctx)
+	if !m.bad {
+		outcome(t, "csr-response/ok")
+	}
+	if !doAlter {
+		return
+	}
 	// alteration of the signed part and signature of the requester's certificate inside the response
 	off := bytes.Index(der, signLeaf.Raw)
 	if off < 0 {
@@ -1343,8 +1350,4 @@ func checkCSRResponse(t *engine.T, env *issuerEnv, nSign, encMode int, longLeaf 
 		}
 		return false, "sig"
 	})
-	t.Nontrivial("csr-response/" + ctx)
-	if !m.bad {
-		outcome(t, "csr-response/ok")
-	}
 }
